@@ -163,16 +163,16 @@ class Run:
         if self.violations:
             evid['coverage']['violation_keys'] = sorted({k for k, _ in self.violations})
         os.makedirs(os.path.join(HOME, 'evidence'), exist_ok=True)
-        if not self.replay:
+        if not self.replay and not os.environ.get('VERIF_NO_EVIDENCE'):
             with open(os.path.join(HOME, 'evidence', f'{self.pid}.json'), 'w') as f:
                 json.dump(evid, f, indent=1)
         for key, n in sorted(self.known_hits.items()):
             print(f'KNOWN-FINDING: property={self.pid} key={key} observed={n} {self.known[self.pid][key]}')
         if self.violations:
-            os.makedirs(os.path.join(HOME, 'replays'), exist_ok=True)
+            os.makedirs(os.environ.get('VERIF_REPLAY_DIR') or os.path.join(HOME, 'replays'), exist_ok=True)
             seen = set()
             for i, (key, wit) in enumerate(self.violations):
-                path = os.path.join(HOME, 'replays', f'{self.pid}_{self.tier}_s{self.seed}_{i}.json')
+                path = os.path.join(os.environ.get('VERIF_REPLAY_DIR') or os.path.join(HOME, 'replays'), f'{self.pid}_{self.tier}_s{self.seed}_{i}.json')
                 with open(path, 'w') as f:
                     json.dump({'property_id': self.pid, 'tier': self.tier, 'seed': self.seed, 'key': key, 'witness': wit}, f, indent=1)
                 if key not in seen or i < 3:
